@@ -249,6 +249,9 @@ fn esc_attr(s: &str) -> String {
 pub fn addr_text(r: &Range) -> String {
     if r.v6 {
         format!("{}/{}", std::net::Ipv6Addr::from(r.addr), r.len)
+    } else if r.addr > u32::MAX as u128 {
+        // not an IPv4 address: the excess shows in the first component (as `showV4L` in Spec/InstalledGrammar.lean)
+        format!("{}.{}.{}.{}/{}", r.addr >> 24, (r.addr >> 16) & 255, (r.addr >> 8) & 255, r.addr & 255, r.len)
     } else {
         format!("{}/{}", std::net::Ipv4Addr::from(r.addr as u32), r.len)
     }
@@ -485,7 +488,11 @@ fn catch<T>(f: impl FnOnce() -> Result<T, String> + std::panic::UnwindSafe) -> R
 
 /// canonical `ok:<name>:<v4>/<v6>;…` | `err`
 pub fn real_read_installed(cfg: &JCfg) -> String {
-    let xml = render_get_config(cfg);
+    real_read_installed_xml(render_get_config(cfg))
+}
+
+/// the real reader on an arbitrary reply document
+pub fn real_read_installed_xml(xml: String) -> String {
     match catch(move || agent::verif::read_installed(&xml)) {
         Err(_) => "err".into(),
         Ok(v) => {
@@ -656,7 +663,7 @@ fn agent_term(six: bool, filters: Vec<Range>) -> JTerm {
 }
 
 /// a policy as the (repaired) agent installs it for the evaluated sets `a`, `b`
-fn agent_policy(name: &str, a: &[Range], b: &[Range], flip: bool) -> JPolicy {
+pub fn agent_policy(name: &str, a: &[Range], b: &[Range], flip: bool) -> JPolicy {
     let mut terms = vec![];
     if !a.is_empty() {
         terms.push(agent_term(false, a.to_vec()));
@@ -806,6 +813,19 @@ fn foreign_cases() -> Vec<Case> {
         let t = p.terms[0].clone();
         p.terms.push(t)
     });
+    m("padded-family", &|p| p.terms[0].family = Some(" inet ".into()));
+    m("padded-family-nl", &|p| p.terms[0].family = Some("\n\tinet\n".into()));
+    m("padded-family-nbsp", &|p| p.terms[0].family = Some("\u{a0}inet\u{2003}".into()));
+    m("padded-family-and-name", &|p| {
+        p.terms[0].family = Some(" inet".into());
+        p.terms[0].name = " inet".into()
+    });
+    m("padded-name", &|p| p.terms[0].name = "inet ".into());
+    m("padded-unknown-family", &|p| {
+        p.terms[0].family = Some(" iso ".into());
+        p.terms[0].name = "iso".into()
+    });
+    m("family-inner-space", &|p| p.terms[0].family = Some("in et".into()));
     m("no-reject", &|p| p.reject = false);
     m("no-reject-bad-term", &|p| {
         p.reject = false;
@@ -941,6 +961,11 @@ struct Live {
 pub fn main(opts: &Opts) {
     let mut variant = "fixed".to_string();
     let mut prop = "all".to_string();
+    // `evlevel=1`: additionally the event-level rows (src/instev.rs) for every distinct configuration
+    // (capped: an event list with all its `read_text` spans is ~50 kB per configuration)
+    let evlevel = opts.extra.iter().any(|e| e == "evlevel=1");
+    let ev_cap = if opts.thorough() { 5000 } else { 1000 };
+    let mut ev_seen: std::collections::HashSet<String> = Default::default();
     for e in &opts.extra {
         if let Some(v) = e.strip_prefix("variant=") {
             variant = v.to_string();
@@ -1003,6 +1028,9 @@ pub fn main(opts: &Opts) {
             let cands = real_candidates(&running);
             sink.corr(&case_id, format!("plan cands {variant} {}", enc_running(&running)), canon_cands(&cands));
             sink.corr(&case_id, format!("plan read {variant} {}", enc_cfg(&l.cfg)), real_read_installed(&l.cfg));
+            if evlevel && ev_seen.len() < ev_cap && ev_seen.insert(enc_cfg(&l.cfg)) {
+                crate::instev::ev_rows(&mut sink, &case_id, &l.cfg);
+            }
             let (ev, payloads) = match &cands {
                 Ok(c) => {
                     let ev = ev_impl(c, &running);
@@ -1057,6 +1085,9 @@ pub fn main(opts: &Opts) {
             // phase 3: read-back and second plan on the state the implementation produced
             let (readback, pl2, cfg2) = match &applied {
                 Some(Ok(c2)) => {
+                    if evlevel && ev_seen.len() < ev_cap && ev_seen.insert(enc_cfg(c2)) {
+                        crate::instev::ev_rows(&mut sink, &w.case_id, c2);
+                    }
                     let rb = real_read_installed(c2);
                     let p2 = real_plan(c2, &w.ev);
                     (rb, enc_payloads(&p2), Some(c2.clone()))
